@@ -291,7 +291,48 @@ def run(env):
     env.extra_cov["subsets"] = table
     env.samples = table[:3]
     env.exhaustive = len(subs) == 64 and len(env.distinct) == 64
+    reported_compiler_probe(env, subs)
     guard_and_targets(env, text, ref_sessions)
+
+
+def reported_compiler_probe(env, subs):
+    """Code can be selected by the compiler VERSION (rustversion, autocfg, version_check all ask `rustc --version`).  No
+    older toolchain is installed, but the version string is all they see: a shim reports the README's MSRV (1.65.0) and
+    1.80.0 and otherwise runs the real compiler.  Code written for an older compiler is valid for the real one, so
+    `cargo check` must succeed for every feature subset exactly as it does without the shim."""
+    real = subprocess.run(["rustup", "which", "rustc"], stdout=subprocess.PIPE, text=True).stdout.strip() or "rustc"
+    ver = subprocess.run([real, "--version"], stdout=subprocess.PIPE, text=True).stdout
+    m = re.match(r"rustc (\d+\.\d+\.\d+)", ver)
+    if not m:
+        env.note("reported-compiler probe: cannot read the compiler's version (%r)" % ver[:60])
+        return
+    table = {}
+    for v in ("1.65.0", "1.80.0"):
+        shim = os.path.join(env.work, "rustc-%s" % v)
+        with open(shim, "w") as fh:
+            fh.write("#!/bin/sh\nfor a in \"$@\"; do\n  case \"$a\" in\n    -vV|--version|-V)\n      \"%s\" \"$@\" | sed 's/%s/%s/g'\n      exit 0 ;;\n  esac\ndone\nexec \"%s\" \"$@\"\n" % (
+                real, m.group(1).replace(".", "\\."), v, real))
+        os.chmod(shim, 0o755)
+        e = dict(fw.BASE_ENV)
+        e.pop("RUSTFLAGS", None)
+        e["RUSTC"] = shim
+        okc = 0
+        for feats in subs:
+            fl = ",".join(feats)
+            rc, o, dt = sh(["cargo", "check", "--offline", "--ignore-rust-version", "--lib", "--no-default-features", "--features", fl,
+                            "--target-dir", os.path.join(fw.VERIF, "target", "shim-" + v)], fw.REPO, e, 1800)
+            env.count("evaluations", 1)
+            if rc == 0:
+                okc += 1
+            elif rc is None:
+                env.inconclusive.append("reported-compiler probe %s [%s]: watchdog" % (v, fl))
+            elif classify_build_failure(o) == "crate":
+                env.violation("C17:does_not_compile_for_reported_compiler:%s" % v, "with a compiler that reports version %s the crate does not compile with features [%s] (it does with the same compiler reporting %s): %s" % (
+                    v, fl, m.group(1), " | ".join(re.findall(r"^error.*$", o, re.M)[:3])), workload="features")
+            else:
+                env.inconclusive.append("reported-compiler probe %s [%s] failed outside the crate: %s" % (v, fl, o[-200:]))
+        table[v] = {"subsets_checked": len(subs), "compiled": okc}
+    env.extra_cov["reported_compiler_versions"] = table
 
 
 def guard_and_targets(env, text, ref_sessions):
